@@ -19,10 +19,140 @@ def strip_comments(s):
     return re.sub(r"//[^\n]*", " ", s)
 
 
+# ---------------------------------------------------------------------------------------------------
+# Translator for the per-thread work-array layout (K-trans): the size formulas of p?gstrf_WorkInit, the NUM_TEMPV macro,
+# the carving of the integer work array by pxgstrf_SetIWork, of the real one by p?gstrf_SetRWork, and the strides with which
+# p?gstrf_bmod2D walks tempv[] are C integer expressions: they are parsed here and re-emitted as Gallina definitions over Z.
+# The theorems of coq/WorkLayout.v (arrays suffice for the documented uses) are stated about THESE definitions, so they are
+# re-proved against what the source says now on every run.
+class CExprError(Exception):
+    pass
+
+
+def c_tokens(s):
+    toks = re.findall(r"\s*(\d+|[A-Za-z_][A-Za-z_0-9]*|[-+*(),&\[\]])", s)
+    if "".join(toks) != re.sub(r"\s+", "", s):
+        raise CExprError("cannot tokenise %r" % s)
+    return toks
+
+
+def c_expr_to_gallina(s, env):
+    """integer expression with + - * ( ) SUPERLU_MAX/MIN and macro calls listed in env (name -> Gallina function applied to
+    its translated arguments); identifiers are mapped through env (name -> Gallina term)"""
+    toks = c_tokens(s)
+    pos = [0]
+
+    def peek():
+        return toks[pos[0]] if pos[0] < len(toks) else None
+
+    def eat(t=None):
+        x = peek()
+        if x is None or (t is not None and x != t):
+            raise CExprError("expected %r at token %d of %r" % (t, pos[0], s))
+        pos[0] += 1
+        return x
+
+    def atom():
+        x = eat()
+        if x == "(":
+            e = expr(); eat(")"); return "(" + e + ")"
+        if x.isdigit():
+            return x
+        if x == "*" :                       # pointer dereference of a base pointer: *dense
+            y = eat()
+            if ("*" + y) in env:
+                return env["*" + y]
+            raise CExprError("dereference of %s" % y)
+        if re.match(r"[A-Za-z_]", x):
+            if peek() == "(":
+                eat("(")
+                args = [expr()]
+                while peek() == ",":
+                    eat(","); args.append(expr())
+                eat(")")
+                if x == "SUPERLU_MAX" and len(args) == 2:
+                    return "(Z.max (%s) (%s))" % (args[0], args[1])
+                if x == "SUPERLU_MIN" and len(args) == 2:
+                    return "(Z.min (%s) (%s))" % (args[0], args[1])
+                if x in env and callable(env[x]):
+                    return env[x](args)
+                raise CExprError("unknown call %s" % x)
+            if x in env and not callable(env[x]):
+                return env[x]
+            raise CExprError("unknown identifier %s in %r" % (x, s))
+        raise CExprError("unexpected token %r in %r" % (x, s))
+
+    def term():
+        e = atom()
+        while peek() == "*":
+            eat("*"); e = "%s * %s" % (e, atom())
+        return e
+
+    def expr():
+        e = term()
+        while peek() in ("+", "-"):
+            op = eat(); e = "%s %s %s" % (e, op, term())
+        return e
+
+    e = expr()
+    if peek() is not None:
+        raise CExprError("trailing tokens in %r" % s)
+    return e
+
+
+def work_layout(repo):
+    out = ["", "(* ---- per-thread work arrays: translated from SRC/pmemory.c, SRC/p?memory.c, SRC/p?gstrf_bmod2D.c ---- *)"]
+
+    def need(m, what):
+        if not m:
+            sys.stderr.write("gen_consts: cannot find %s\n" % what); sys.exit(1)
+        return m
+    try:
+        # pxgstrf_SetIWork: offsets (in int_t units) of the pieces of the integer work array
+        src = strip_comments(open(os.path.join(repo, "SRC/pmemory.c")).read())
+        body = need(re.search(r"pxgstrf_SetIWork\s*\([^)]*\)\s*\{(.*?)\n\}", src, re.S), "pxgstrf_SetIWork").group(1)
+        env = {"n": "n", "panel_size": "w", "NO_MARKER": "c_NO_MARKER", "iworkptr": "0"}
+        names = []
+        for m in re.finditer(r"\*\s*([a-z_]+)\s*=\s*([^;]+);", body):
+            names.append(m.group(1))
+            out.append("Definition c_iw_%s (n w : Z) : Z := %s." % (m.group(1), c_expr_to_gallina(m.group(2), env)))
+        out.append("Definition c_iw_pieces : list (Z -> Z -> Z) := [%s]." % "; ".join("c_iw_" + x for x in names))
+        m = need(re.search(r"ifill\s*\(\s*\*\s*repfnz\s*,\s*([^,]+),", body), "ifill(*repfnz") 
+        out.append("Definition c_iw_fill_repfnz (n w : Z) : Z := %s." % c_expr_to_gallina(m.group(1), env))
+        for p in "sdcz":
+            src = strip_comments(open(os.path.join(repo, "SRC/p%smemory.c" % p)).read())
+            m = need(re.search(r"#\s*define\s+NUM_TEMPV\(n,w,t,b\)\s+(.*)", src), "NUM_TEMPV in p%smemory.c" % p)
+            out.append("Definition c_num_tempv_%s (n w t b : Z) : Z := %s." % (p, c_expr_to_gallina(m.group(1), {"n": "n", "w": "w", "t": "t", "b": "b"})))
+            env = {"n": "n", "panel_size": "w", "maxsuper": "t", "rowblk": "b", "NO_MARKER": "c_NO_MARKER", "*dense": "0",
+                   "NUM_TEMPV": (lambda a, p=p: "c_num_tempv_%s %s" % (p, " ".join("(%s)" % x for x in a)))}
+            wi = need(re.search(r"p%sgstrf_WorkInit\s*\([^)]*\)\s*\{(.*?)\n\}" % p, src, re.S), "WorkInit").group(1)
+            m = need(re.search(r"isize\s*=\s*(.*?)\*\s*sizeof\s*\(\s*int_t\s*\)\s*;", wi, re.S), "isize")
+            out.append("Definition c_work_isize_%s (n w : Z) : Z := %s." % (p, c_expr_to_gallina(m.group(1).strip(), env)))
+            m = need(re.search(r"dsize\s*=\s*(.*?)\*\s*sizeof\s*\(\s*\w+\s*\)\s*;", wi, re.S), "dsize")
+            out.append("Definition c_work_dsize_%s (n w t b : Z) : Z := %s." % (p, c_expr_to_gallina(m.group(1).strip(), env)))
+            rw = need(re.search(r"p%sgstrf_SetRWork\s*\([^)]*\)\s*\{(.*?)\n\}" % p, src, re.S), "SetRWork").group(1)
+            m = need(re.search(r"\*\s*tempv\s*=\s*([^;]+);", rw), "*tempv =")
+            out.append("Definition c_rw_tempv_%s (n w : Z) : Z := %s." % (p, c_expr_to_gallina(m.group(1), env)))
+            m = need(re.search(r"%sfill\s*\(\s*\*\s*dense\s*,\s*([^,]+)," % p, rw), "fill(*dense")
+            out.append("Definition c_rw_fill_dense_%s (n w : Z) : Z := %s." % (p, c_expr_to_gallina(m.group(1), env)))
+            m = need(re.search(r"%sfill\s*\(\s*\*\s*tempv\s*,\s*(.*?),\s*zero\s*\)" % p, rw, re.S), "fill(*tempv")
+            out.append("Definition c_rw_fill_tempv_%s (n w t b : Z) : Z := %s." % (p, c_expr_to_gallina(m.group(1), env)))
+            b2 = strip_comments(open(os.path.join(repo, "SRC/p%sgstrf_bmod2D.c" % p)).read())
+            m = need(re.search(r"ldaTmp\s*=\s*([^;]+);", b2), "ldaTmp")
+            out.append("Definition c_bmod2d_lda_%s (t b : Z) : Z := %s." % (p, c_expr_to_gallina(m.group(1), env)))
+            m = need(re.search(r"MatvecTmp\s*=\s*&\s*TriTmp\s*\[([^\]]+)\]\s*;", b2), "MatvecTmp")
+            out.append("Definition c_bmod2d_mv_%s (t b : Z) : Z := %s." % (p, c_expr_to_gallina(m.group(1), env)))
+            strides = set(re.findall(r"TriTmp\s*\+=\s*([A-Za-z_0-9]+)", b2))
+            out.append("Definition c_bmod2d_stride_is_lda_%s : bool := %s." % (p, "true" if strides == {"ldaTmp"} else "false"))
+    except CExprError as e:
+        sys.stderr.write("gen_consts: work-layout translation failed: %s\n" % e); sys.exit(1)
+    return out
+
+
 def main():
     repo, out = sys.argv[1], sys.argv[2]
     lines = ["(* GENERATED by tools/gen_consts.py from %s -- do not edit *)" % ", ".join(HEADERS),
-             "Require Import ZArith.", "Local Open Scope Z_scope.", ""]
+             "Require Import ZArith List.", "Import ListNotations.", "Local Open Scope Z_scope.", ""]
     seen = set()
     for h in HEADERS:
         src = strip_comments(open(os.path.join(repo, h)).read())
@@ -71,6 +201,7 @@ def main():
     m = re.search(r"#\s*define\s+NUM_TEMPV\(n,w,t,b\)\s+(.*)", src)
     ok = bool(m) and re.sub(r"\s+", "", m.group(1)) == "(SUPERLU_MAX(2*n,(t+b)*w))"
     lines.append("Definition c_NUM_TEMPV_is_max_2n_tbw : bool := %s." % ("true" if ok else "false"))
+    lines += work_layout(repo)
     txt = "\n".join(lines) + "\n"
     if os.path.exists(out) and open(out).read() == txt:
         return
